@@ -1,9 +1,11 @@
 (* C05 -- Exported Verilog (module and testbench) reproduces the simulation.
-   Only statements + `exact`; proofs in IO/VerilogProofs.v.
+   Only statements + `exact`; proofs in IO/VerilogProofs.v (per-op),
+   IO/VerilogModuleProofs.v (module), IO/VerilogTestbenchProofs.v (testbench).
    The meaning of the emitted text is IO/VerilogSem.v (trusted formalisation of
    the IEEE 1364-2001 subset); the emitter model is IO/VerilogEmit.v, tied to
    the real emitter on every run by py/checks/C05.py. *)
-From PyRTL Require Import Netlist.Sem Netlist.WFDefs IO.VerilogEmit IO.VerilogProofs.
+From PyRTL Require Import Netlist.Sem Netlist.WFDefs IO.VerilogEmit IO.VerilogTestbench
+  IO.VerilogProofs IO.VerilogModuleProofs IO.VerilogTestbenchProofs.
 
 (* For every exportable op, ALL operand widths and in-range operand values, and
    every destination width allowed by Block.sanity_check_net (vrules keeps only
@@ -49,4 +51,111 @@ Example C05_example_values :
   = [Some 11; Some 15; Some 3; Some 6; Some 13; Some 2]
   /\ forallb (vrules ex_nl) [ mkNet OpAdd [1; 2] 3; mkNet OpSub [1; 2] 4;
                              mkNet (OpSelect [2; 0]) [1] 5; mkNet OpMux [6; 1; 2] 7 ] = true.
+Proof. vm_compute. split; reflexivity. Qed.
+
+(* ---- the module ------------------------------------------------------------
+   nl   : the design (any well-formed netlist: wfb, the premise of C01 as well);
+   mode : the add_reset option (RNone = False, RSync = True, RAsync = 'asynchronous');
+   m    : ANY module that passes the structural tie emitted_ok nl mode m -- on every
+          run py/checks/C05.py evaluates this very predicate on the parse of the text
+          the real output_to_verilog wrote, for each sampled design and option;
+   SR   : same register values; every memory word of the module (ROM words come from
+          its `initial` blocks) is what the reference semantics reads;
+   envs : ANY sequence of settled valuations of the module (continuous assignments
+          hold simultaneously) linked by clock edges with rst low.
+   Then on every cycle every declared wire -- in particular every Output -- has
+   exactly the value of the reference run, for every legal input sequence and
+   every initial memory content, under all three add_reset options. *)
+Theorem C05_module_refines_spec : forall nl mode m dflt inss st vst envs,
+  wfb nl = true -> emitted_ok nl mode m = true ->
+  SR nl st vst -> legal_regs nl (sregs st) -> Forall (legal_ins nl) inss ->
+  vtrace m vst (map (fun i => (i, false)) inss) envs ->
+  Forall2 (fun v env => forall x, In x (wires nl) ->
+             env (wname x) = v (wname x) /\ inrange (env (wname x)) (width_of nl (wname x)))
+          (fst (run nl dflt st inss)) envs.
+Proof. intros nl mode m dflt inss st vst envs Hwf Hok. exact (run_refines nl mode m Hwf Hok dflt inss st vst envs). Qed.
+Print Assumptions C05_module_refines_spec.
+
+(* The hypothesis SR is satisfiable from every reference state, in particular the
+   reset state init_state nl 0 [] memmap (registers at reset_value, else 0): give
+   the module the same register values and memory contents; its ROM arrays are
+   filled by its own initial blocks. *)
+Theorem C05_initial_state_related : forall nl mode m st,
+  wfb nl = true -> emitted_ok nl mode m = true ->
+  SR nl st (mkVState (sregs st) (vinit_mems m (smems st))).
+Proof. intros nl mode m st Hwf Hok. exact (init_related nl mode m Hwf Hok st). Qed.
+Print Assumptions C05_initial_state_related.
+
+(* add_reset = True / 'asynchronous': one clock edge with rst high loads every
+   register with its reset value (0 if none), whatever it held before. *)
+Theorem C05_reset_edge_loads_reset_values : forall nl mode m,
+  wfb nl = true -> emitted_ok nl mode m = true -> mode <> RNone ->
+  forall env vst n, In n (nets nl) -> nop n = OpReg ->
+  vregs (vedge m true env vst) (ndest n) = reset_of nl (ndest n) mod 2 ^ width_of nl (ndest n).
+Proof. exact reset_loads. Qed.
+Print Assumptions C05_reset_edge_loads_reset_values.
+
+(* What the search's executable evaluator (vrun: order-hinted evaluation + check of
+   every equation) returns IS a run of the relational semantics, hence the reference
+   trace: the search can only disagree with Sem.run if the tie or wfb is false. *)
+Theorem C05_evaluator_refines_spec : forall nl mode m order dflt st inss,
+  wfb nl = true -> emitted_ok nl mode m = true ->
+  legal_regs nl (sregs st) -> Forall (legal_ins nl) inss ->
+  let tr := fst (vrun m order (mkVState (sregs st) (vinit_mems m (smems st)))
+                      (map (fun i => (i, false)) inss)) in
+  forallb (fun eo => snd eo) tr = true ->
+  Forall2 (fun v env => forall x, In x (wires nl) -> env (wname x) = v (wname x))
+          (fst (run nl dflt st inss)) (map fst tr).
+Proof. exact evaluator_refines_spec. Qed.
+Print Assumptions C05_evaluator_refines_spec.
+
+(* ---- the testbench ---------------------------------------------------------
+   tb_ok is the decidable predicate the harness evaluates on the parse of the text
+   output_verilog_testbench wrote for a trace of each simulator; st0 is the state
+   the simulation was started from (register_value_map > reset_value > default,
+   memory_value_map > default), inss the traced inputs. *)
+Theorem C05_testbench_replays : forall nl st0 inss tb,
+  tb_ok nl st0 inss tb = true ->
+  (forall x, In x (wires nl) -> is_kreg x = true ->
+     tregs (tb_state tb) (wname x) = Some (sregs st0 (wname x)))
+  /\ (forall mm, In mm (mems nl) -> mrom mm = None -> forall a, 0 <= a < 2 ^ maddrw mm ->
+        tmems (tb_state tb) (mid mm) a = Some (smems st0 (mid mm) a))
+  /\ Forall2 (drives_spec nl) inss (tb_cycles tb).
+Proof. exact tb_ok_sound. Qed.
+Print Assumptions C05_testbench_replays.
+
+(* ---- non-vacuity: a design with a register (reset 9), a written memory, a ROM,
+   +, -, <, mux, selects; module = parse of the text the real emitter wrote for it
+   with add_reset='asynchronous' (generated once with py/checks/C05.py's reader) *)
+Definition ex2_nl : netlist :=
+  mkNetlist [mkWire 1 3 KInput; mkWire 2 3 KInput; mkWire 3 4 KOutput; mkWire 4 3 KOutput; mkWire 5 4 KOutput; mkWire 6 4 (KReg (Some 9)); mkWire 7 4 KWire; mkWire 8 4 KWire; mkWire 9 4 KWire; mkWire 10 4 KWire; mkWire 11 2 KWire; mkWire 12 1 KWire; mkWire 13 2 KWire; mkWire 14 4 KWire; mkWire 15 2 KWire; mkWire 16 3 KWire; mkWire 17 1 KWire] [mkNet (OpSelect [0]) [2] 12; mkNet (OpSelect [0; 1]) [2] 13; mkNet (OpMemRd 0) [13] 14; mkNet OpW [14] 3; mkNet OpSub [1; 2] 8; mkNet OpLt [1; 2] 17; mkNet OpAdd [1; 2] 7; mkNet (OpSelect [0; 1]) [1] 11; mkNet (OpSelect [1; 2]) [6] 15; mkNet OpXor [7; 6] 10; mkNet OpMux [17; 8; 6] 9; mkNet (OpMemRd 1) [15] 16; mkNet OpW [9] 5; mkNet OpW [16] 4; mkNet OpReg [10] 6; mkNet (OpMemWr 0) [11; 8; 12] 0] [mkMem 0 2 4 None; mkMem 1 2 3 (Some [(0, 5); (1, 1); (2, 7); (3, 2)])].
+Definition ex2_m : vmodule :=
+  mkVModule [(1, 3); (2, 3)] [(3, 4); (4, 3); (5, 4)] [(6, 4)] [(7, 4); (8, 4); (10, 4); (11, 2); (12, 1); (13, 2); (14, 4); (15, 2); (16, 3); (17, 1); (9, 4)] [(0, (4, 4)); (1, (3, 4))] [(1, [(0, (VSized 3 5)); (1, (VSized 3 1)); (2, (VSized 3 7)); (3, (VSized 3 2))])] [(3, (VId 14)); (4, (VId 16)); (5, (VId 9)); (7, (VBin BAdd (VId 1) (VId 2))); (8, (VBin BSub (VId 1) (VId 2))); (10, (VBin BXor (VId 7) (VId 6))); (11, (VCat [(VBit 1 1); (VBit 1 0)])); (12, (VCat [(VBit 2 0)])); (13, (VCat [(VBit 2 1); (VBit 2 0)])); (15, (VCat [(VBit 6 2); (VBit 6 1)])); (17, (VCmp CLt (VId 1) (VId 2))); (9, (VCond (VId 17) (VId 6) (VId 8)))] [(14, (0, 13)); (16, (1, 15))] RAsync [(6, (VDec 9))] [(6, (VId 10))] [(0, [mkVW 12 11 8])].
+Definition ex2_order : list Z := [12; 13; 14; 3; 8; 17; 7; 11; 15; 10; 9; 16; 5; 4].
+Definition ex2_ins : list (wid -> Z) :=
+  map (fun p x => match x with 1 => fst p | 2 => snd p | _ => 0 end) [(5, 6); (7, 1); (2, 2); (0, 7)].
+Definition ex2_st : state := init_state ex2_nl 0 [] [(0, [(2, 11)])].
+
+Example C05_example_hypotheses : wfb ex2_nl = true /\ emitted_ok ex2_nl RAsync ex2_m = true.
+Proof. vm_compute. split; reflexivity. Qed.
+
+(* outputs o1 o2 o3 over four cycles: both semantics give the same trace, every
+   cycle settles; the register starts at its reset value 9 *)
+Example C05_example_trace :
+  let tr := fst (vrun ex2_m ex2_order (mkVState (sregs ex2_st) (vinit_mems ex2_m (smems ex2_st)))
+                      (map (fun i => (i, false)) ex2_ins)) in
+  forallb (fun eo => snd eo) tr = true
+  /\ map (fun env => map env [3; 4; 5; 6]) (map fst tr)
+     = map (fun v => map v [3; 4; 5; 6]) (fst (run ex2_nl 0 ex2_st ex2_ins))
+  /\ map (fun v => map v [3; 4; 5; 6]) (fst (run ex2_nl 0 ex2_st ex2_ins))
+     = [[11; 5; 9; 9]; [0; 1; 6; 2]; [11; 1; 0; 10]; [6; 2; 14; 14]].
+Proof. vm_compute. repeat split; reflexivity. Qed.
+
+(* a testbench that sets r, fills the memory and one word, and drives a, b for one
+   cycle is accepted; one that forgets the register is not *)
+Example C05_example_testbench :
+  tb_ok ex2_nl (init_state ex2_nl 0 [(6, 3)] [(0, [(2, 11)])]) [fun x => if x =? 1 then 5 else 6]
+        (mkTB [TReg 6 3; TFill 0 4 0; TMem 0 2 11] [[(1, (3, 5)); (2, (3, 6))]]) = true
+  /\ tb_ok ex2_nl (init_state ex2_nl 0 [(6, 3)] [(0, [(2, 11)])]) [fun x => if x =? 1 then 5 else 6]
+        (mkTB [TReg 6 9; TFill 0 4 0; TMem 0 2 11] [[(1, (3, 5)); (2, (3, 6))]]) = false.
 Proof. vm_compute. split; reflexivity. Qed.
